@@ -96,4 +96,19 @@ def b64Decode (inp : List Nat) : List Nat :=
 /-- value of a decimal numeral given as ASCII digits, most significant first -/
 def decimalValue (ds : List Nat) : Nat := ds.foldl (fun acc d => acc * 10 + (d - 48)) 0
 
+/-- saturation of a mathematical value to the range of a signed type (what C11 7.22.1.4 prescribes for
+    `strtol`/`strtoll` when the correct value is outside the range of representable values) -/
+def clamp (lo hi v : Int) : Int := if v < lo then lo else if hi < v then hi else v
+
+/-- the text starts with a decimal digit -/
+def headIsDigit : List Nat → Bool
+  | [] => false
+  | c :: _ => 48 ≤ c && c ≤ 57
+
+/-- a text that holds no number in the sense of C11 7.22.1.4 once the white space is removed: empty, or a first
+    char that is neither white space nor a digit and - when it is a sign - is not followed by a digit -/
+def noNumber : List Nat → Bool
+  | [] => true
+  | c :: tl => !(c = 32 || (9 ≤ c && c ≤ 13)) && !(48 ≤ c && c ≤ 57) && (!(c = 43 || c = 45) || !headIsDigit tl)
+
 end Nstd.Codec.Spec
